@@ -12,8 +12,8 @@ structure DSt where
   handles : List Nat := []           -- handle of the object at each pool position
   xids    : List (Nat × Bool) := []  -- (handle, is a FixedArray) of each external block, by block number
   labels  : List Nat := []           -- labels[l] = creation number of the Storage printed as S<l>
-  bags    : List (List Nat) := [[], [], [], [], []]   -- handles held in the std::vector<X> of each kind, in order
-  caps    : List Nat := [0, 0, 0, 0, 0]               -- capacity() of those vectors
+  bags    : List (List Nat) := List.replicate 9 []    -- handles held in the std::vector<X> of each kind, in order
+  caps    : List Nat := List.replicate 9 0            -- capacity() of those vectors
 
 def posOf (d : DSt) (k : Nat) : Option Nat := d.handles.idxOf? k
 def xposOf (d : DSt) (x : Nat) : Option (Nat × Bool) :=
@@ -37,14 +37,16 @@ def statusStr : Err → String
   | .badOp => "bad-op"
 
 def kindIdx : Kind → Nat
-  | .vec => 0 | .mat => 1 | .avec => 2 | .symm => 3 | .tri => 4
+  | .vec => 0 | .mat => 1 | .avec => 2 | .symm => 3 | .tri => 4 | .diag => 5 | .adiag => 6 | .asymm => 7 | .dvec => 8
 
 def kindChar : Kind → String
-  | .vec => "v" | .mat => "m" | .avec => "a" | .symm => "s" | .tri => "t"
+  | .vec => "v" | .mat => "m" | .avec => "a" | .symm => "s" | .tri => "t" | .diag => "g" | .adiag => "G" | .asymm => "S"
+  | .dvec => "p"
 
-/-- suffix of the creation commands: `new`, `newm`, `newa`, `news`, `newt` -/
+/-- suffix of the creation commands: `new`, `newm`, `newa`, `news`, `newt`, `newg`, `newG`, `newS`, `newp` -/
 def kindOfSuffix : String → Option Kind
   | "" => some .vec | "m" => some .mat | "a" => some .avec | "s" => some .symm | "t" => some .tri
+  | "g" => some .diag | "G" => some .adiag | "S" => some .asymm | "p" => some .dvec
   | _ => none
 
 /-- labels in order of first discovery, objects scanned by ascending handle -/
@@ -118,7 +120,7 @@ def inBag (d : DSt) (k : Nat) : Bool := d.bags.any (·.contains k)
 
 /-! ### view requests: `<fn> args`, the harness precondition (`view_ok`) -/
 
-def viewNames : List String := ["sl", "row", "col", "sub", "idx", "tr", "diag", "sod", "rsh", "perm"]
+def viewNames : List String := ["sl", "row", "col", "sub", "idx", "tr", "diag", "sod", "rsh", "perm", "dm", "il"]
 
 def parseView (fn : String) (a : List Int) : Option ViewFn :=
   match fn, a with
@@ -132,6 +134,8 @@ def parseView (fn : String) (a : List Int) : Option ViewFn :=
   | "sod", [i0, i1] => some (.subDiag i0 i1)
   | "rsh", [d0, d1] => some (.reshape d0 d1)
   | "perm", [i0, i1] => some (.permute i0 i1)
+  | "dm", [] => some .diagMatrix
+  | "il", [] => some .inactive
   | _, _ => none
 
 def rangeOk (len : Nat) (lo hi st : Int) : Bool :=
@@ -145,23 +149,22 @@ def small (x : Int) : Bool := decide (-20 ≤ x ∧ x ≤ 20)
 def viewOk (s : St) (b : Obj) (f : ViewFn) : Bool :=
   if b.len = 0 || (b.kind == .mat && b.len1 = 0) || b.region == .null then false else
   if b.storage.isNone && !usable s b then false else
-  match f, b.kind with
-  | .slice lo hi st, .vec => rangeOk b.len lo hi st
-  | .slice lo hi st, .avec => rangeOk b.len lo hi st
-  | .row i lo hi st, .mat => decide (0 ≤ i ∧ i < (b.len : Int)) && rangeOk b.len1 lo hi st
-  | .col lo hi st j, .mat => decide (0 ≤ j ∧ j < (b.len1 : Int)) && rangeOk b.len lo hi st
-  | .sub lo0 hi0 st0 lo1 hi1 st1, .mat => rangeOk b.len lo0 hi0 st0 && rangeOk b.len1 lo1 hi1 st1
-  | .idx i, .mat => decide (0 ≤ i ∧ i < (b.len : Int))
-  | .transpose, .mat => true
-  | .diag k, .mat => small k && !(b.len = b.len1 && k.natAbs = b.len)
-  | .diag k, .symm => small k && k.natAbs ≠ b.len
-  | .diag k, .tri => small k && k.natAbs ≠ b.len
-  | .subDiag i0 i1, .mat => small i0 && small i1
-  | .subDiag i0 i1, .symm => small i0 && small i1
-  | .subDiag i0 i1, .tri => small i0 && small i1
-  | .reshape d0 d1, .vec => small d0 && small d1
-  | .permute i0 i1, .mat => small i0 && small i1
-  | _, _ => false
+  let special := !b.kind.isArray
+  match f with
+  | .slice lo hi st => b.kind.isVec && rangeOk b.len lo hi st
+  | .row i lo hi st => b.kind == .mat && decide (0 ≤ i ∧ i < (b.len : Int)) && rangeOk b.len1 lo hi st
+  | .col lo hi st j => b.kind == .mat && decide (0 ≤ j ∧ j < (b.len1 : Int)) && rangeOk b.len lo hi st
+  | .sub lo0 hi0 st0 lo1 hi1 st1 => b.kind == .mat && rangeOk b.len lo0 hi0 st0 && rangeOk b.len1 lo1 hi1 st1
+  | .idx i => b.kind == .mat && decide (0 ≤ i ∧ i < (b.len : Int))
+  | .transpose => b.kind == .mat || b.kind.isSymm
+  | .diag k =>
+    if b.kind == .mat then small k && !(b.len = b.len1 && k.natAbs = b.len)
+    else special && small k && k.natAbs ≠ b.len
+  | .subDiag i0 i1 => (b.kind == .mat || special) && small i0 && small i1
+  | .reshape d0 d1 => b.kind == .vec && small d0 && small d1
+  | .permute i0 i1 => b.kind == .mat && small i0 && small i1
+  | .diagMatrix => (b.kind == .vec || b.kind == .avec) && b.stride ≥ 1
+  | .inactive => !(b.kind == .adiag || b.kind == .asymm)
 
 /-- class of the object a view function returns -/
 def viewKind (src : Kind) : ViewFn → Kind
@@ -170,7 +173,10 @@ def viewKind (src : Kind) : ViewFn → Kind
   | .row .. => .vec
   | .col .. => .vec
   | .idx .. => .vec
-  | .diag .. => .vec
+  | .diag .. => if src == .mat then .vec else src.diagVec
+  | .transpose => src
+  | .diagMatrix => if src == .avec then .adiag else .diag
+  | .inactive => if src == .avec then .dvec else src
   | _ => .mat
 
 /-! ### running model operations -/
@@ -290,7 +296,7 @@ def endAll (d : DSt) : DSt × Bool :=
     | some p => match step acc.1.st (.destroy p) with
       | .ok s' => ({ acc.1 with st := s', handles := acc.1.handles.eraseIdx p }, acc.2)
       | .error _ => (acc.1, false)
-    | none => (acc.1, false)) ({ d with bags := [[], [], [], [], []], caps := [0, 0, 0, 0, 0] }, true)
+    | none => (acc.1, false)) ({ d with bags := List.replicate 9 [], caps := List.replicate 9 0 }, true)
 
 /-- `<form><fn> x b args…`: a view of `b` constructed (form "", "fn", "fnv"), linked to, or assigned to `x` -/
 def viewCmd (d : DSt) (c : String) (a : List Int) : DSt × String :=
@@ -317,6 +323,7 @@ def viewCmd (d : DSt) (c : String) (a : List Int) : DSt × String :=
           | none => bad
           | some px =>
             if (form = "amfn" ∨ form = "amfnv") ∧ fn ≠ "sl" then bad else
+            if kindAt d px ≠ some (viewKind ob.kind f) then bad else
             if form = "link" then withTemp d (fun _ => [.view pb f]) (fun p => [.link px p])
             else if !(usableAt d px && usableAt d pb) then skip
             else if form = "ac" then withTemp d (fun _ => [.view pb f]) (fun p => [.assignCopy px p])
@@ -368,6 +375,10 @@ def stepI (d : DSt) (c : String) (a : List Int) : DSt × String :=
                   else doNew d k (.newExternal px off n)
       | none => bad
     | _, _, _ => bad
+  | "fdiag", [k, x] =>       -- k := new DiagMatrix(F.diag_matrix()): over the FixedArray's own memory, no Storage
+    match nat? k, nat? x >>= xposOf d with
+    | some k, some (px, true) => if (posOf d k).isSome then bad else doNew d k (.newExternal px 0 4 true)
+    | _, _ => bad
   | "fsl", [k, x, lo, hi] =>
     match nat? k, nat? x >>= xposOf d, nat? lo, nat? hi with
     | some k, some (px, true), some lo, some hi =>
@@ -585,9 +596,8 @@ def stepI (d : DSt) (c : String) (a : List Int) : DSt × String :=
         match nat? x >>= posOf d with
         | some px =>
           match kindAt d px with
-          | some .vec => bad
-          | some .avec => bad
           | some kd =>
+            if kd.isVec then bad else
             if n0 > 8 ∨ n0 < -4 ∨ n1 > 8 ∨ n1 < -4 then bad
             else if kd.isArray then doOp d (.resize px (c = "rsi2") n0 n1 v0)
             else doOp d (.resize px false n0 n1 v0)            -- SpecialMatrix::resize(dim0, dim1)
